@@ -373,6 +373,29 @@ fn gen_cases(r: &mut Rng, n: usize, work: &Path, snippets: &(Vec<Vec<String>>, V
         *kinds.entry("multi-abi-extern-blocks".to_owned()).or_insert(0) += 1;
         v.push(Case { name, header: path, text: Some(text), pre, clang: if cpp { vec!["-x".into(), "c++".into()] } else { vec![] }, has_static_fns: false, inproc_ok: true });
     }
+    // headers whose translation depends on the system include path, with clang arguments that change it: the
+    // include-path detection (`clang -E -v` through clang_sys) must be a function of this generation's arguments
+    for (j, (body, clang)) in [
+        ("#if __has_include(<stdint.h>)\n#include <stdint.h>\ntypedef uint32_t incpath_reg_t;\n#else\ntypedef unsigned incpath_reg_t;\n#endif\nincpath_reg_t incpath_f(void);\n", vec![]),
+        ("#if __has_include(<stdint.h>)\n#include <stdint.h>\ntypedef uint32_t incpath_reg_t;\n#else\ntypedef unsigned incpath_reg_t;\n#endif\nincpath_reg_t incpath_f(void);\n", vec!["-nostdinc"]),
+        ("#if __has_include(<atomic>)\nint incpath_has_cxx;\n#else\nint incpath_plain_c;\n#endif\n#include <stddef.h>\nsize_t incpath_g(void);\n", vec![]),
+    ].into_iter().enumerate() {
+        let cpp = false;
+        let name = format!("incpath{j}.{}", if j == 3 { "hpp" } else { "h" });
+        let path = work.join(&name);
+        std::fs::write(&path, body).unwrap();
+        *kinds.entry("include-path-sensitive".to_owned()).or_insert(0) += 1;
+        let _ = cpp;
+        v.push(Case { name, header: path, text: Some(body.to_string()), pre: vec!["--formatter".into(), "none".into()], clang: clang.iter().map(|s| s.to_string()).collect(), has_static_fns: false, inproc_ok: true });
+    }
+    {
+        // the same text as a C++ header (language inferred from the extension only)
+        let body = "#if __has_include(<atomic>)\nint incpath_has_cxx;\n#else\nint incpath_plain_c;\n#endif\n";
+        let name = "incpath3.hpp".to_string();
+        let path = work.join(&name);
+        std::fs::write(&path, body).unwrap();
+        v.push(Case { name, header: path, text: Some(body.to_string()), pre: vec!["--formatter".into(), "none".into()], clang: vec![], has_static_fns: false, inproc_ok: true });
+    }
     v
 }
 
@@ -494,7 +517,7 @@ fn main() {
     // baseline of the SAME flag list), one in four keeps the production default.
     let mut n_detect = 0usize;
     for (i, c) in cases.iter_mut().enumerate() {
-        if i % 4 != 0 && !c.pre.iter().any(|f| f == "--no-include-path-detection") {
+        if i % 4 != 0 && !c.name.starts_with("incpath") && !c.pre.iter().any(|f| f == "--no-include-path-detection") {
             c.pre.push("--no-include-path-detection".into());
         } else {
             n_detect += 1;
